@@ -1112,7 +1112,15 @@ func (c *Conn) doInsert(st *ast.InsertStmt, args []interface{}) (*result, error)
 			if col.AutoInc {
 				iv, _ := toInt(row[ci])
 				if row[ci] == nil || iv == 0 {
-					autoCounter = e.srv.nextAuto(autoCounter)
+					next := e.srv.nextAuto(autoCounter)
+					if next <= autoCounter {
+						// the counter has reached the end of the column's range
+						return nil, &sqlErr{1467, "Failed to read auto-increment value from storage engine"}
+					}
+					if cv, serr := col.coerce(next); serr != nil || cv == nil {
+						return nil, &sqlErr{1467, "Failed to read auto-increment value from storage engine"}
+					}
+					autoCounter = next
 					row[ci] = autoCounter
 					autoAssigned = true
 					if firstAuto == 0 {
